@@ -81,7 +81,7 @@ XerWritable(env, T0, v) ==
     [] T.k = "STRING" -> \A i \in DOMAIN v : PlainChar(v[i])
     [] T.k \in {"SEQUENCE", "SET"} ->
          \A i \in DOMAIN AllComps(T) : IsPres(v[i]) => XerWritable(env, AllComps(T)[i].t, v[i][1])
-    [] T.k = "CHOICE" -> XerWritable(env, CompByName(T, AltOf(v)).t, AltVal(v))
+    [] ChoiceLike(T.k) -> XerWritable(env, CompByName(T, AltOf(v)).t, AltVal(v))
     [] T.k \in {"SEQOF", "SETOF"} -> \A i \in DOMAIN v : XerWritable(env, T.t, v[i])
     [] OTHER -> TRUE
 
@@ -111,7 +111,7 @@ Content(env, T0, v) ==
     [] T.k \in {"SEQUENCE", "SET"} ->
          LET cs == AllComps(T)
          IN ConcatAll([i \in DOMAIN cs |-> IF Encoded(env, cs[i], v[i]) THEN Gapped(Elem(env, cs[i].n, cs[i].t, v[i][1])) ELSE <<>>])
-    [] T.k = "CHOICE" -> Gapped(Elem(env, AltOf(v), CompByName(T, AltOf(v)).t, AltVal(v)))
+    [] ChoiceLike(T.k) -> Gapped(Elem(env, AltOf(v), CompByName(T, AltOf(v)).t, AltVal(v)))
     [] T.k \in {"SEQOF", "SETOF"} ->
          \* items: value list of empty elements for BOOLEAN / ENUMERATED / NULL; the alternative's own
          \* element for a CHOICE item; otherwise an element named after the item type
